@@ -82,6 +82,8 @@ type Frame struct {
 	entry       *State
 	args        []Value
 	callOrd     map[string]int
+	srcOrd      map[ssa.Instruction]int
+	srcCnt      map[string]int
 	depth       int
 	parent      *Frame
 	allocSeq    []*ssa.Alloc
